@@ -166,6 +166,8 @@ def menu(f, with_queries=False, full=True):
         if dn:
             add('removesingleton_f', not conv, dim=dn[0])
             add('slice_dim_f', dims[dn[0]] >= 1, dim=dn[0])
+            # every second element (the stride need not divide the length)
+            add('slice_dim_f', True, dim=dn[-1], text='None,None,2')
             # (reducing the vertex dimension of a CF bounds variable is outside the domain: cell bounds
             # without their vertices mean nothing)
             def vertex(d):
@@ -257,7 +259,7 @@ def do_op(f, op):
     if name == 'removesingleton_f':
         return F.removesingleton(f, op['dim'])
     if name == 'slice_dim_f':
-        return F.slice_dim(f, '%s,0' % op['dim'])
+        return F.slice_dim(f, '%s,%s' % (op['dim'], op.get('text', '0')))
     if name == 'reduce_dim_f':
         return F.reduce_dim(f, '%s,mean' % op['dim'])
     raise ValueError('unknown op %r' % (op,))
